@@ -22,4 +22,6 @@ def run(run):
             continue
         run.explore("%s chains+nested" % name, "mc.generic", "shard_mono",
                     generic.shard_plan(name, "pair", run.tier, run.phase, 64))
-    run.require_nonvacuous("mono.strict_increase_edges", "nested.strict_states")
+    # mono.strict_increase_edges / nested.strict_states are output-side: reported in the evidence, not required
+    # (a defect that flattens every score must surface as a violation or as silence, never as a harness error)
+    run.require_nonvacuous("chains_evaluated")
